@@ -7,8 +7,11 @@ pub async fn on_did_change_watched_files(
     context: ServerContextSnapshot,
     params: DidChangeWatchedFilesParams,
 ) -> Option<()> {
-    let workspace = context.workspace_manager().read().await;
+    // Lock order: analysis before workspace_manager, like every request handler that needs
+    // both. Taking them the other way round deadlocks with such a handler as soon as a
+    // workspace_manager writer (didOpen/didChange) is queued between the two.
     let mut analysis = context.analysis().write().await;
+    let workspace = context.workspace_manager().read().await;
     let emmyrc = analysis.get_emmyrc();
     let encoding = &emmyrc.workspace.encoding;
     let interval = emmyrc.diagnostics.diagnostic_interval.unwrap_or(500);
@@ -47,11 +50,9 @@ pub async fn on_did_change_watched_files(
                     continue;
                 }
                 let config_path = uri_to_file_path(&file_event.uri).unwrap();
-                context
-                    .workspace_manager()
-                    .read()
-                    .await
-                    .add_update_emmyrc_task(context.clone(), config_path);
+                // reuse the guard we already hold: acquiring the read lock again would
+                // deadlock behind a queued writer
+                workspace.add_update_emmyrc_task(context.clone(), config_path);
             }
             None => {}
         }
